@@ -129,7 +129,10 @@ Theorem C08_source_facts :
   gen_lpm_initial_best = src_lpm_initial_best /\
   gen_lpm_candidate_is_bucket_head = true /\ gen_cidr_sort_less = src_sort_less /\
   gen_addroute_keys_by_canonical_network = true /\ gen_canonical_is_parsecidr_of_printed = true /\
-  gen_removeroute_uses_canonical_key = true.
+  gen_removeroute_uses_canonical_key = true /\
+  (* AddRoute's existence probe and its insert are in one write-lock region:
+     the operation is one atomic step, as the model has it *)
+  gen_cidr_addroute_probe_and_insert_under_one_write_lock = true.
 Proof. repeat split; reflexivity. Qed.
 Print Assumptions C08_source_facts.
 
